@@ -399,6 +399,12 @@ func cmdCheck(args []string) {
 			} else if g.Class != "panic" && len(baseline) > 0 {
 				nClaimed++
 				report(g, "new contract obligation not discharged")
+			} else if k := panicKind(n); len(baseline) > 0 && freeOfKind(baseline, g.Func, k) {
+				// the function was free of this kind of panic on the unchanged tree (every index / slice / division /
+				// map-store / explicit-panic site it had was discharged, or it had none): the group "<function>: no <kind>
+				// panic" passed before and does not pass now
+				nClaimed++
+				report(g, "the function was proved free of "+k+" panics on the unchanged tree; a new site of that kind is not discharged")
 			} else {
 				nUndecided++
 				undecidedNames = append(undecidedNames, n)
@@ -653,4 +659,38 @@ func writeEvidence(eng *Engine, verif, id, tier string, seed int, cfg *PropConfi
 	out, _ := json.MarshalIndent(ev, "", " ")
 	os.MkdirAll(filepath.Join(verif, "evidence"), 0o755)
 	os.WriteFile(filepath.Join(verif, "evidence", id+".json"), append(out, '\n'), 0o644)
+}
+
+// panicKind: the kind of a panic obligation ("index", "slice-bounds", "div-zero", "nil-map-store", "explicit"), or ""
+// for kinds that are not tracked per function (nil dereferences, interface calls, type assertions: these depend on
+// invariants of parse trees and models that the sweep does not have, and most functions carry undecided ones).
+func panicKind(name string) string {
+	i := strings.Index(name, "#panic:")
+	if i < 0 {
+		return ""
+	}
+	rest := name[i+len("#panic:"):]
+	for _, k := range []string{"index", "slice-bounds", "div-zero", "nil-map-store", "explicit"} {
+		if strings.HasPrefix(rest, k+":") || strings.HasPrefix(rest, k+"@") {
+			return k
+		}
+	}
+	return ""
+}
+
+func freeOfKind(baseline map[string]BaselineEntry, fn, kind string) bool {
+	if kind == "" || fn == "" {
+		return false
+	}
+	known := false
+	for n, e := range baseline {
+		if !strings.HasPrefix(n, fn+"#") {
+			continue
+		}
+		known = true
+		if panicKind(n) == kind && e.Status != "proved" {
+			return false
+		}
+	}
+	return known // the function must have been under the sweep already
 }
